@@ -6,6 +6,10 @@ props = [json.loads(l) for l in open(os.path.join(V, 'properties.jsonl'))]
 
 # id -> (level, engine, technique, level text, level note, design_ref)
 CHECKS = {
+ 'C01': ('exploration', 'E2-seq', 'bounded-exhaustive product enumeration of (leaf size, length, pattern, source chunking, flush concurrency) x complete read battery on the real cafs, worker subprocesses with hang/fatal detection',
+         'Complete finite product at L=64 (every length 0..3L+1, every chunk size 1..2L+1, single write, 32 KiB writes, flush concurrency 1/2/3/16) plus boundary lengths at L=65/100/4096/1MiB/1.5MiB/5MiB; every read style at every offset / buffer size; no sampling.',
+         'Contents are three structured patterns, not arbitrary bytes (cafs never branches on byte values). Backing store is the reference in-memory store delivering blobs in several Read calls (both EOF shapes).',
+         'DESIGN.md §3 C01'),
  'C22': ('model_checking', 'E2-seq', 'explicit-state BFS over write histories of the real tracker to a fixed point, bitmap reference model',
          'Every reachable tracker state for offsets 0..9 / lengths 0..10 (quick 0..6 / 0..7) is visited (exact de-duplication on the implementation marker dump) and every (offset,len) query in every state is compared with a bitmap model; unbounded history length within that offset domain.',
          'Offsets beyond the small domain are not explored; the tracker logic only compares offsets, so the domain contains every ordering of start/end against existing markers. Trusted: bitmap model, hook accessors (verif tag).',
